@@ -410,8 +410,35 @@ static void op_listcrystals_user(uint32_t j, rec_t *r, xrl_error **e) {
     trk_on = 0; Crystal_ArrayFree(a); trk_on = off;
 }
 
+/* the error API itself, with messages that contain conversion specifications (an error that echoes a caller's string may hold any text): k & 3 selects how the
+   error is produced, (k >> 2) & 3 what is done with it; v0 = 1 iff code and message arrive unchanged, v1 = step that failed */
+static void op_errapi(uint32_t j, rec_t *r, xrl_error **e) {
+    (void)e; int k = I(0); xrl_error *a = NULL, *b = NULL; int fail = 0;
+    switch (k & 3) {
+    case 0: { struct compoundDataNIST *c = GetCompoundDataNISTByName("Water, 100%% pure %s %d %5$x", &a); if (c) FreeCompoundDataNIST(c); } break;
+    case 1: { struct compoundData *c = CompoundParser("H2O%s%d", &a); if (c) FreeCompoundData(c); } break;
+    case 2: xrl_set_error_literal(&a, XRL_ERROR_RUNTIME, "literal 100%% %s %d %%"); break;
+    case 3: xrl_set_error(&a, XRL_ERROR_IO, "%s %d%%", "formatted %s", 7); break;
+    }
+    if (!a || !a->message) { r->v[1] = 1; return; }
+    int off = trk_on; trk_on = 0; int code0 = a->code; char *msg0 = strdup(a->message); trk_on = off;
+    switch ((k >> 2) & 3) {
+    case 0: b = xrl_error_copy(a);
+            if (!b || b == a || b->code != code0 || !b->message || b->message == a->message || strcmp(b->message, msg0) || strcmp(a->message, msg0)) fail = 2;
+            xrl_error_free(a); if (b && !fail && strcmp(b->message, msg0)) fail = 3; xrl_error_free(b); break;
+    case 1: xrl_propagate_error(&b, a);                 /* empty destination: the very error arrives */
+            if (!b || b->code != code0 || !b->message || strcmp(b->message, msg0)) fail = 4;
+            xrl_clear_error(&b); if (b) fail = 5; break;
+    case 2: xrl_propagate_error(NULL, a); break;         /* no destination: the error is released */
+    case 3: if (!xrl_error_matches(a, code0) || xrl_error_matches(a, code0 == XRL_ERROR_MEMORY ? XRL_ERROR_IO : XRL_ERROR_MEMORY) || xrl_error_matches(NULL, code0)) fail = 6;
+            xrl_clear_error(&a); if (a) fail = 7; xrl_clear_error(&a); break;
+    }
+    off = trk_on; trk_on = 0; blob_printf("%u\t%d\t%s\n", j, fail, msg0); free(msg0); trk_on = off;
+    r->v[0] = fail ? 0 : 1; r->v[1] = fail;
+}
+
 const op_t optab[] = {
-    { "crystal_transient", op_crystal_transient }, { "getcrystal_user", op_getcrystal_user }, { "listcrystals_user", op_listcrystals_user },
+    { "errapi", op_errapi }, { "crystal_transient", op_crystal_transient }, { "getcrystal_user", op_getcrystal_user }, { "listcrystals_user", op_listcrystals_user },
     { "CompoundParser", op_CompoundParser }, { "add_compound_data", op_add_compound_data },
     { "NISTByName", op_NISTByName }, { "NISTByIndex", op_NISTByIndex }, { "NISTList", op_NISTList },
     { "RadioByName", op_RadioByName }, { "RadioByIndex", op_RadioByIndex }, { "RadioList", op_RadioList },
